@@ -32,6 +32,19 @@ def instantiate(crate_name):
     return dst
 
 
+def instantiate_plain(crate_name):
+    """A harness crate without /repo path dependencies and without the shared runner."""
+    src = os.path.join(VERIF, 'harness', crate_name)
+    tag = hashlib.sha256(REPO.encode()).hexdigest()[:8]
+    dst = os.path.join(WORK, '%s-%s' % (crate_name, tag))
+    os.makedirs(dst, exist_ok=True)
+    if os.path.exists(os.path.join(dst, 'src')):
+        shutil.rmtree(os.path.join(dst, 'src'))
+    shutil.copytree(os.path.join(src, 'src'), os.path.join(dst, 'src'))
+    shutil.copy(os.path.join(src, 'Cargo.toml.in'), os.path.join(dst, 'Cargo.toml'))
+    return dst
+
+
 def build_native(crate_dir, bin_name):
     rc, so, se, dt = run(['cargo', 'build', '--release', '--offline'], cwd=crate_dir, timeout=1200)
     if rc != 0:
